@@ -447,24 +447,41 @@ def probe_client_drop():
 _cache = {}
 
 
+# value used for a fact whose probe could not be completed (the behaviour is outside what the model knows): every obligation
+# about it fails, and the reason is listed in `probeErrors`
+_FAILED = {
+    "hk": [], "disc": [], "removal": [(k, False) for k in ("get_next_stream_item", "close_stream", "_clientDisconnect",
+                                                            "_housekeeping/lifetime", "_housekeeping/linger")],
+    "next_exc": False, "lock": (0, 1), "hook": False, "ids": False, "drivers": (False, False, False, False),
+    "mask": 0, "client_drop": ["?"],
+}
+
+
 def facts():
-    """all probes, once per process and source tree"""
+    """all probes, once per process and source tree; a probe that cannot be completed never raises"""
     key = common.REPO
     if key in _cache:
         return _cache[key]
-    with _Env() as env:
-        f = {
-            "hk": probe_housekeeping(env),
-            "disc": probe_disconnect(env),
-            "removal": probe_removal_tolerance(env),
-            "next_exc": probe_next_exceptions(env),
-            "lock": probe_lock(env),
-            "hook": probe_hook(env),
-            "ids": probe_stream_ids(env),
-            "drivers": probe_housekeeping_drivers(env),
-        }
-    f["mask"] = probe_seq_mask()
-    f["client_drop"] = probe_client_drop()
+    f = {"errors": []}
+
+    def run(name, fn, *a):
+        try:
+            f[name] = fn(*a)
+        except Exception as x:
+            f[name] = _FAILED[name]
+            f["errors"].append("%s: %s: %s" % (name, type(x).__name__, str(x)[:120]))
+    try:
+        with _Env() as env:
+            for name, fn in (("hk", probe_housekeeping), ("disc", probe_disconnect), ("removal", probe_removal_tolerance),
+                             ("next_exc", probe_next_exceptions), ("lock", probe_lock), ("hook", probe_hook),
+                             ("ids", probe_stream_ids), ("drivers", probe_housekeeping_drivers)):
+                run(name, fn, env)
+    except Exception as x:
+        f["errors"].append("environment: %s: %s" % (type(x).__name__, str(x)[:120]))
+        for name in ("hk", "disc", "removal", "next_exc", "lock", "hook", "ids", "drivers"):
+            f.setdefault(name, _FAILED[name])
+    run("mask", probe_seq_mask)
+    run("client_drop", probe_client_drop)
     _cache[key] = f
     return f
 
@@ -539,6 +556,8 @@ def seqMask : Nat := {f["mask"]}
 /-- exceptions of the remote call after which `_StreamResultIterator.__next__` drops its proxy
     (tried: StopIteration, GeneratorExit, ValueError, PyroError, ConnectionClosedError) -/
 def clientDropsProxyOn : List String := {json.dumps(f["client_drop"])}
+/-- probes that could not be completed (behaviour outside what the model knows); must be empty -/
+def probeErrors : List String := {json.dumps(f["errors"])}
 /-- configuration defaults (seconds * 1000) -/
 def defaultStreaming : Bool := {_b(cfg.ITER_STREAMING)}
 def defaultLifetimeMilli : Int := {milli(cfg.ITER_STREAM_LIFETIME)}
